@@ -226,7 +226,16 @@ class MoveMethod:
         if self._is_host_used():
             result = "self"
         definition_info = functionutils.DefinitionInfo.read(self.pyfunction)
-        others = definition_info.arguments_to_string(1)
+        # forward the parameters themselves, not their default values
+        passed = [
+            arg if default is None else f"{arg}={arg}"
+            for arg, default in definition_info.args_with_defaults[1:]
+        ]
+        if definition_info.args_arg is not None:
+            passed.append("*" + definition_info.args_arg)
+        if definition_info.keywords_arg:
+            passed.append("**" + definition_info.keywords_arg)
+        others = ", ".join(passed)
         if others:
             if result:
                 result += ", "
